@@ -71,5 +71,5 @@ def obligations(tier):
     if tier == "thorough":
         for n, s, e in SHAPES[:4]:
             obs.append(ob("pipe_" + n + "_ndebug", s, e, ndebug=True))
-            obs.append(ob("sigfd_" + n + "_ndebug", s, e + ["VP_SIGFD"], ndebug=True))
+            obs.append(ob("sigfd_" + n + "_ndebug", s, [x for x in e if x != "VP_WIT_TWICE"] + ["VP_SIGFD"], ndebug=True))
     return obs
